@@ -215,10 +215,7 @@ def shard(ctx: Ctx) -> None:
 
 
 def _try(ctx, case):
-    try:
-        check_message(case)
-    except Failure as f:
-        ctx.fail(f)
+    ctx.attempt(case, check_message, case)
 
 
 def replay(case):
